@@ -80,6 +80,18 @@
 //	           Arithmetic, comparison and float64 -> float32 are rejected.
 //	[]bool     (round 5) make([]bool, n) and b[i] = v (go_make_g / go_set_g); unsafe.String over
 //	           unsafe.SliceData is the byte list.
+//	channels   (round 6) chan T (T integer, bool or struct value) is a bounded FIFO, gchan in GoSlice.v
+//	           (buffered elements + capacity), for code that is the single sender or the single
+//	           receiver: ch <- v is a blocking send (GPanic when full: "would block"; bridge lemmas
+//	           carry "there is room"); select { case ch <- v: A default: B } and
+//	           select { case <-ch: A default: B } are the non-blocking send / receive; len(ch),
+//	           cap(ch). A select has ONE live communication; receive cases on a channel registered
+//	           with registerOpenChan2 (a done-channel closed only after the owner has exited) are
+//	           never ready and dropped. Other selects, v := <-ch, close, channels of pointers: rejected.
+//	atomics    (round 6) CompareAndSwap on sync/atomic integers; sync/atomic.Pointer[T] (T a struct)
+//	           is the *T it holds: Load / Store. All single sequential steps.
+//	results    (round 6) named results are accepted when the name is documentation only (never read
+//	           or assigned, every return explicit).
 //
 // Output: one Coq Module per package (dependency order), generated Records for the struct types
 // used, an Inductive per sum interface, and one `Definition f ... : gres T` per function, each
@@ -215,6 +227,14 @@ func extIface(ty types.Type) (*types.Named, bool) {
 	}
 	return n, len(extMethodsOf(n)) > 0
 }
+
+// registerOpenChan2: a signalling channel field ("Struct.field", element struct{}) that the translated
+// functions only ever receive from inside a select and that is closed only when the owning
+// goroutine has exited. The translation covers the time BEFORE that close: the receive case is
+// never ready and is dropped from the select. Trusted (stated in the bridge file).
+var openChans2 = map[string]bool{}
+
+func registerOpenChan2(pkg, structField string) { openChans2[modPath+"/"+pkg+"."+structField] = true }
 
 // registerIgnoredCall2: a function whose calls have no effect the models observe (logging). Its
 // operands are still translated (their panics are behaviour), the call itself is dropped.
@@ -536,6 +556,42 @@ func atomicKind(ty types.Type) (ikind, bool) {
 	return ikind{}, false
 }
 
+// atomicPtrElem: sync/atomic.Pointer[T], T a struct: modelled as the *T it holds (Load / Store are
+// single sequential steps).
+func atomicPtrElem(ty types.Type) (types.Type, bool) {
+	n, ok := ty.(*types.Named)
+	if !ok || n.Obj().Pkg() == nil || n.Obj().Pkg().Path() != "sync/atomic" || n.Obj().Name() != "Pointer" {
+		return nil, false
+	}
+	if n.TypeArgs() == nil || n.TypeArgs().Len() != 1 {
+		return nil, false
+	}
+	if _, _, isS := namedStruct(n.TypeArgs().At(0)); !isS {
+		return nil, false
+	}
+	return types.NewPointer(n.TypeArgs().At(0)), true
+}
+
+// chanElem: a bidirectional channel of integers, booleans or struct values, used as a bounded FIFO
+// (gchan in GoSlice.v: the buffered elements and the capacity). The translated code is the single
+// sender or the single receiver; a blocking operation that cannot proceed at once is GPanic.
+func chanElem(ty types.Type) (types.Type, bool) {
+	c, ok := ty.Underlying().(*types.Chan)
+	if !ok || c.Dir() != types.SendRecv {
+		return nil, false
+	}
+	e := c.Elem()
+	if _, isInt := intKind(e); isInt || isBool(e) {
+		return e, true
+	}
+	if st, isSt := e.Underlying().(*types.Struct); isSt && st.NumFields() > 0 {
+		if _, _, isS := namedStruct(e); isS {
+			return e, true
+		}
+	}
+	return nil, false
+}
+
 func isAbstractBytes(ty types.Type) bool {
 	n, ok := ty.(*types.Named)
 	if !ok || n.Obj().Pkg() == nil {
@@ -556,6 +612,12 @@ func (t *tr2) typeOK(ty types.Type) bool {
 	}
 	if _, ok := absIntKind(ty); ok {
 		return true
+	}
+	if p, ok := atomicPtrElem(ty); ok {
+		return t.typeOK(p)
+	}
+	if e, ok := chanElem(ty); ok {
+		return t.typeOK(e)
 	}
 	if _, ok := floatKind(ty); ok {
 		return true
@@ -633,7 +695,14 @@ func (t *tr2) record(n *types.Named) *recInfo {
 		}
 		if ok {
 			// make sure nested records are declared first
-			if _, isAtomic := atomicKind(f.Type()); isAtomic {
+			if p, isAP := atomicPtrElem(f.Type()); isAP {
+				nn, _ := ptrStruct(p)
+				t.record(nn)
+			} else if e, isCh := chanElem(f.Type()); isCh {
+				if nn, _, isS := namedStruct(e); isS {
+					t.record(nn)
+				}
+			} else if _, isAtomic := atomicKind(f.Type()); isAtomic {
 				// an integer
 			} else if _, isAbs := absIntKind(f.Type()); isAbs {
 				// an integer
@@ -650,7 +719,14 @@ func (t *tr2) record(n *types.Named) *recInfo {
 		r.fields = append(r.fields, recField{goName: f.Name(), coq: r.name + "_" + f.Name(), ty: f.Type(), ok: ok})
 		if ok { // the record's module depends on the module that declares the field's type
 			dm := ""
-			if nn, _, isS := namedStruct(f.Type()); isS {
+			if p, isAP := atomicPtrElem(f.Type()); isAP {
+				nn, _ := ptrStruct(p)
+				dm = t.g.mods[nn.Obj().Pkg().Path()]
+			} else if e, isCh := chanElem(f.Type()); isCh {
+				if nn, _, isS := namedStruct(e); isS {
+					dm = t.g.mods[nn.Obj().Pkg().Path()]
+				}
+			} else if nn, _, isS := namedStruct(f.Type()); isS {
 				dm = t.g.mods[nn.Obj().Pkg().Path()]
 			} else if nn, isP := ptrStruct(f.Type()); isP {
 				dm = t.g.mods[nn.Obj().Pkg().Path()]
@@ -824,6 +900,12 @@ func (t *tr2) ctype(n ast.Node, ty types.Type) string {
 	if _, ok := floatKind(ty); ok {
 		return "Z"
 	}
+	if p, ok := atomicPtrElem(ty); ok && t.typeOK(ty) {
+		return t.ctype(n, p)
+	}
+	if e, ok := chanElem(ty); ok && t.typeOK(ty) {
+		return "(gchan " + t.ctype(n, e) + ")"
+	}
 	if si, ok := isSumList(ty); ok && t.typeOK(ty) {
 		t.useSum(n, si, ty.Underlying().(*types.Slice).Elem())
 		return "(list " + t.q(t.g.mods[modPath+"/"+si.pkg], si.name) + ")"
@@ -892,6 +974,12 @@ func (t *tr2) zero(n ast.Node, ty types.Type) string {
 	}
 	if _, ok := floatKind(ty); ok {
 		return "0"
+	}
+	if _, ok := atomicPtrElem(ty); ok {
+		return "None"
+	}
+	if _, ok := chanElem(ty); ok {
+		return "(mk_gchan [] 0)" // a nil channel: nothing can be sent or received
 	}
 	if _, ok := isSumList(ty); ok {
 		return "[]"
@@ -1240,8 +1328,8 @@ func (t *tr2) function(fd *ast.FuncDecl) string {
 		t.fail(fd, "variadic function unsupported")
 	}
 	for i := 0; i < sig.Results().Len(); i++ {
-		if sig.Results().At(i).Name() != "" {
-			t.fail(fd, "named results unsupported")
+		if rv := sig.Results().At(i); rv.Name() != "" && rv.Name() != "_" && t.namedResultUsed(fd, rv) {
+			t.fail(fd, "named results unsupported (unless the name is documentation only: never read or assigned, every return explicit)")
 		}
 	}
 	rty := t.ctype(fd, sig.Results())
@@ -1443,6 +1531,25 @@ func (t *tr2) atomicCall(call *ast.CallExpr) (target ast.Expr, method string, k 
 	return sel.X, sel.Sel.Name, k, true
 }
 
+// atomicPtrCall recognises x.Load() / x.Store(p) on a sync/atomic.Pointer[T].
+func (t *tr2) atomicPtrCall(call *ast.CallExpr) (target ast.Expr, method string, ok bool) {
+	sel, isSel := call.Fun.(*ast.SelectorExpr)
+	if !isSel {
+		return nil, "", false
+	}
+	ty := t.info.TypeOf(sel.X)
+	if ty == nil {
+		return nil, "", false
+	}
+	if p, isP := ty.(*types.Pointer); isP {
+		ty = p.Elem()
+	}
+	if _, ok := atomicPtrElem(ty); !ok {
+		return nil, "", false
+	}
+	return sel.X, sel.Sel.Name, true
+}
+
 // writesReceiver: a pointer-receiver method whose body assigns through the receiver (field
 // assignment, element assignment, copy / PutUint into it, atomic Add / Store on a field).
 func (t *tr2) writesReceiver(fd *ast.FuncDecl) bool {
@@ -1626,6 +1733,27 @@ func (t *tr2) usesIface(r *recInfo, seen map[*recInfo]bool) bool {
 		}
 	}
 	return false
+}
+
+// namedResultUsed: the named result is referenced in the body, or some return is bare.
+func (t *tr2) namedResultUsed(fd *ast.FuncDecl, rv *types.Var) bool {
+	used := false
+	ast.Inspect(fd.Body, func(n ast.Node) bool {
+		switch x := n.(type) {
+		case *ast.Ident:
+			if t.info.Uses[x] == rv || t.info.Defs[x] == rv {
+				used = true
+			}
+		case *ast.ReturnStmt:
+			if len(x.Results) == 0 {
+				used = true
+			}
+		case *ast.FuncLit:
+			return false
+		}
+		return !used
+	})
+	return used
 }
 
 // selfRecursive: the body calls the function itself.
